@@ -20,6 +20,7 @@ import (
 	"testing"
 	"time"
 
+	"github.com/cloudwego/eino/callbacks"
 	"github.com/cloudwego/eino/schema"
 )
 
@@ -49,6 +50,8 @@ type vfScenario struct {
 	Branches []vfBranch             `json:"branches"`
 	Max      int                    `json:"max"`
 	NilOut   []string               `json:"nilout"` // nodes whose output type is `any` and whose body returns nil: their state post-handler supplies the value
+	Pipe     bool                   `json:"pipe"`   // streaming nodes (snodes) hand out pipe-backed streams of two chunks instead of one array-backed chunk
+	DOpt     bool                   `json:"dopt"`   // every call carries a node-designated callbacks option in front of the other options
 	AnyOut   bool                   `json:"anyout"` // the top-level graph is a Graph[map[string]any, any]: input and output type differ (checkpoint stream converters)
 	Chunks   int                    `json:"chunks"` // Collect/Transform calls hand the input over in this many chunks (0/1: one)
 	RMax     int                    `json:"rmax"` // per-call step limit (WithRuntimeMaxSteps) given at every call of the top-level graph; 0: none
@@ -483,6 +486,18 @@ func (r *vfRun) nodeLambda(prefix string, sc *vfScenario, name string) *Lambda {
 			out, err := body(ctx, in)
 			if err != nil {
 				return nil, err
+			}
+			if sc.Pipe {
+				// a real (pipe-backed) stream of two chunks written by a goroutine: closing a copy of it matters, unlike an array-backed one
+				sr, sw := schema.Pipe[map[string]any](0)
+				go func() {
+					defer sw.Close()
+					if sw.Send(out, nil) {
+						return
+					}
+					sw.Send(map[string]any{}, nil)
+				}()
+				return sr, nil
 			}
 			return schema.StreamReaderFromArray([]map[string]any{out}), nil
 		})
@@ -1264,6 +1279,10 @@ func (r *vfRun) drive(rc *vfCall, run Runnable[map[string]any, map[string]any], 
 				}))
 			}
 			rec.log(map[string]any{"ev": "resume", "call": paradigm, "mod": mod})
+		}
+		if sc.DOpt && len(sc.Nodes) > 0 {
+			// an option addressed to one node must not change how the options behind it are read
+			opts = append([]Option{WithCallbacks(callbacks.NewHandlerBuilder().Build()).DesignateNode(sc.Nodes[0])}, opts...)
 		}
 		if !sc.NoID {
 			opts = append(opts, WithCheckPointID("cp-"+rc.id))
